@@ -274,7 +274,40 @@ def w_stale_presence_mandatory(events, line):
     return True
 
 
+def w_stale_presence_left_over(events, line):
+    """C01.NoStale fails only because of a presence container that nobody holds: it stayed on the device when its
+    holder left while a child of another intent lived in it (see KF-C04-1), is in no intent of the store before or
+    after this transaction, was on the device before it, and was intent-defined earlier in the behaviour; every
+    leaf this transaction really takes away from its last (non-orphaned) holder is gone from the device."""
+    e = events[line - 1]
+    if e["ev"] != "txset" or e["ret"] != "ok" or e["dry"]:
+        return False
+    pre = pre_state(events, line)
+    if pre is None:
+        return False
+    leaves = _uni()
+    post_int = {x[2] for x in e["post"]["intended"]}
+    pre_int = {x[2] for x in pre["intended"]}
+    post_dev, pre_dev = fun(e["post"]["device"]), fun(pre["device"])
+    ever = set()
+    j = line - 1
+    while j >= 1 and events[j - 1]["b"] == e["b"]:
+        x = events[j - 1]
+        if x["ev"] == "txset":
+            ever |= {q[0] for i in x["intents"] for q in i["upd"]}
+        j -= 1
+    left_over = [l for l in post_dev if leaves.get(l, {}).get("kind") == "presence" and l not in post_int and l not in pre_int
+                 and l in pre_dev and l in ever]
+    if not left_over:
+        return False
+    orphaned = {i["o"] for i in e["intents"] if i["kind"] == "orphan"}
+    kept = {x[2] for x in pre["intended"] if x[0] in orphaned}
+    really_removed = [l for l in pre_int if l not in post_int and l not in kept]
+    return all(l not in post_dev for l in really_removed)
+
+
 WITNESS = {
+    "stale_presence_left_over": w_stale_presence_left_over,
     "stale_presence_mandatory": w_stale_presence_mandatory,
     "xml_leaflist_replace": w_xml_leaflist_replace,
     "choice_winner_uninvolved": w_choice_winner_uninvolved,
